@@ -687,7 +687,7 @@ def parse_template(path):
                     spec["inserts"].append((pos, anchor.replace("\\n", "\n"), text))
                 elif key == "closure":
                     parts = [x.strip() for x in val.split(" | ")]
-                    spec.setdefault("closures", []).append({"n": int(parts[0]), "params": parts[1], "ret": parts[2],
+                    spec.setdefault("closures", []).append({"n": int(parts[0]) if parts[0].isdigit() else parts[0].strip("/"), "params": parts[1], "ret": parts[2],
                                                             "ensures": parts[3] if len(parts) > 3 else "-",
                                                             "let": parts[4] if len(parts) > 4 else "-",
                                                             "requires": parts[5] if len(parts) > 5 else "-"})
@@ -894,6 +894,22 @@ def generate(unit, template_path, canary=False, extra_fns=()):
                             hits.append(h)
                     if len(hits) != 1:
                         raise AnchorLost(f"{spec['file']}::{spec['name']}: arm pattern `{arm_rx}` matched {len(hits)}x")
+                    if hits[0].groups():
+                        # names bound by the arm pattern (captured by the regex) are substituted for $1, $2.. in the
+                        # synthesized signature and in every annotation of the block: a renamed binding keeps the anchor
+                        def _subst(t, _g=hits[0].groups()):
+                            for gi, gv in enumerate(_g, 1):
+                                t = t.replace(f"${gi}", gv or "")
+                            return t
+                        arm_sig = _subst(arm_sig)
+                        for c in spec["clauses"]:
+                            c["text"] = _subst(c["text"])
+                        for c in spec["loops"]:
+                            c["text"] = _subst(c["text"])
+                        spec["inserts"] = [(a, b, _subst(c)) for (a, b, c) in spec["inserts"]]
+                        for kk in ("prologue", "epilogue"):
+                            if spec.get(kk):
+                                spec[kk] = _subst(spec[kk])
                     k = hits[0].end()
                     ob = fmask.find("{", hits[0].start(), hits[0].end())
                     if ob >= 0 and match_brace(fmask, ob) >= k - 1:
@@ -993,6 +1009,13 @@ def generate(unit, template_path, canary=False, extra_fns=()):
             if spec.get("closures"):
                 # R3+R10: annotate the n-th closure (textual order, before other rewrites shift nothing: applied last-first)
                 cl = find_closures(mask_rust(body))
+                for c in spec["closures"]:
+                    if isinstance(c["n"], str):
+                        # selected by a regex on the closure's parameter list (e.g. /^q$/): robust against closures
+                        # added or removed before it; no unique match = annotation skipped (soft)
+                        hits_c = [i for i, (a, pe, bs, be) in enumerate(cl) if re.search(c["n"], body[a + 1:pe - 1].strip())]
+                        c["_rx"] = c["n"]
+                        c["n"] = hits_c[0] if len(hits_c) == 1 else 10 ** 6
                 for c in sorted(spec["closures"], key=lambda c: -c["n"]):
                     if c["n"] >= len(cl):
                         # soft: an annotation that cannot be placed is skipped (the closure then has no ensures)
@@ -1130,7 +1153,10 @@ def generate(unit, template_path, canary=False, extra_fns=()):
                 # insert from the last loop to the first so offsets stay valid
                 for n in sorted(byloop, reverse=True):
                     if n >= len(loops):
-                        raise AnchorLost(f"{where}: loop #{n} not found (body has {len(loops)} loops)")
+                        # the loop the contract was written for is gone (e.g. replaced by a std call): nothing to annotate;
+                        # soft, like every proof annotation (a failing function then reads `hint-lost`, never VIOLATION)
+                        g.rewrites.append({"rule": "R10", "where": where, "before": f"loop #{n}", "after": "(not found)", "missed": True})
+                        continue
                     k = loops[n]
                     depth = 0
                     while k < len(bmask):
